@@ -101,6 +101,12 @@ HasHardForbidden(m, ctx) == \E f \in HardForbidden(ctx) : HasFrag(m, f)
 MaxScriptBytes(ctx) == IF ctx = "legacy" THEN 520 ELSE IF ctx = "tap" THEN 4000000 ELSE 10000
 WithinConsensusSize(m, ctx) == ByteLen(Encode(m, ctx)) <= MaxScriptBytes(ctx)
 
+\* a bare output (the script is the scriptPubKey itself) is relayed only as P2PK, P2PKH or a
+\* CHECKMULTISIG of at most three keys: the only top-level expressions the bare context admits
+BareStandard(m) ==
+  \/ m.f = "c" /\ m.xs[1].f \in {"pk_k", "pk_h"}
+  \/ m.f \in {"multi", "sortedmulti"} /\ Len(m.ks) <= 3
+
 ObeysContext(m, t, ctx) == \A sw \in CtxOff(ctx) : ~Defect(sw, m, t, ctx)
 ObeysSane(m, t, ctx)    == \A sw \in SaneOff(ctx) : ~Defect(sw, m, t, ctx)
 =============================================================================
